@@ -492,6 +492,8 @@ def check_requery_after_rebuild(acc, n, gates, outs):
 
 def plan(tier):
     t = [{'kind': 'helpers'}, {'kind': 'wrappers'}, {'kind': 'widewrappers'}, {'kind': 'identity'}]
+    for n, m in ((1, 1), (2, 1), (1, 2), (3, 1)):
+        t.append({'kind': 'aliasing', 'n': n, 'm': m})
     shapes = [(0, 1), (0, 2), (1, 1), (1, 2), (2, 1), (2, 2), (3, 1), (1, 3)]
     if tier == 'thorough':
         shapes += [(3, 2), (4, 1), (2, 3)]
@@ -525,7 +527,7 @@ def plan(tier):
 
 def describe(tier):
     return {
-        'rule': 'deep: every protocol query on chain circuits of 3000 gates (three patterns, both storage orders); widewrappers: from_int_unary/binary_func with operand/result widths 33..130 over a stated operand alphabet, both bit orders, against Python integers; wideif: functions of 9..12 (13) inputs depending on 2-3 of them, every ordered choice of positions from {0,1,2,7,8,9,n-2,n-1} with one >= 8: dependency queries incl. the order of the answer; funcs: every function table for the listed (n,m) in 7 representations (TruthTable from bools / strings, PyFunction from a '
+        'rule': 'aliasing: every table of (1,1),(2,1),(1,2),(3,1) built from row lists that the caller keeps rewriting, queried 40 constructions later; deep: every protocol query on chain circuits of 3000 gates (three patterns, both storage orders); widewrappers: from_int_unary/binary_func with operand/result widths 33..130 over a stated operand alphabet, both bit orders, against Python integers; wideif: functions of 9..12 (13) inputs depending on 2-3 of them, every ordered choice of positions from {0,1,2,7,8,9,n-2,n-1} with one >= 8: dependency queries incl. the order of the answer; funcs: every function table for the listed (n,m) in 7 representations (TruthTable from bools / strings, PyFunction from a '
         'list callable with and without output_size and from a 0/1-integer-valued callable, PyFunction.from_positional, Circuit as mux tree); circuits: every circuit of '
         'F(n,2,FULL) with outputs (last gate, first gate, first input) as its own function; identity: callables returning their argument list; sym4: all 65536 four-input functions for the symmetry/constancy/monotonicity queries; rebuild: table queried, last gate rebuilt under the same label with every other type, queried again; every '
         'protocol query with every index argument, both inverse values, every non-empty output subset for find_negations; answers '
@@ -656,12 +658,40 @@ def check_int_wrappers_wide(acc):
     acc.outcome('fn', ('wide-wrappers',))
 
 
+def check_table_aliasing(acc, n, m):
+    """The rows handed to TruthTable stay the caller's: they are edited (and reused for the next table) right after
+    construction; every later answer must still be that of the table as constructed."""
+    from cirbo.core.truth_table import TruthTable
+
+    per = 1 << (1 << n)
+    work = [[False] * (1 << n) for _ in range(m)]  # one set of row lists reused for every table
+    kept = []
+    for idx in range(per ** m):
+        x = idx
+        ts = []
+        for h in range(m):
+            t = x % per
+            x //= per
+            ts.append(t)
+            for j in range(1 << n):
+                work[h][j] = bool((t >> j) & 1)
+        kept.append((ts, TruthTable(work)))
+        if len(kept) > 40:
+            kept.pop(0)
+        # query the table built 40 constructions ago (its row lists have been rewritten 40 times since)
+        ts0, tt0 = kept[0]
+        acc.states += 1
+        check_function(acc, ts0, n, {'TruthTable(rows reused by the caller)': tt0}, 'aliasing')
+
+
 def run_task(task, acc):
     k = task['kind']
     if k == 'helpers':
         return check_helpers(acc)
     if k == 'wrappers':
         return check_int_wrappers(acc)
+    if k == 'aliasing':
+        return check_table_aliasing(acc, task['n'], task['m'])
     if k == 'widewrappers':
         return check_int_wrappers_wide(acc)
     if k == 'identity':
@@ -719,6 +749,8 @@ def replay(case, acc):
         _, pat, L, st = case['family'].split(':')
         c, net = space.deep_chain(pat, int(L), st)
         return check_function(acc, net.out_tables(), len(net.inputs), {'Circuit': c}, case['family'])
+    if case.get('family') == 'aliasing':
+        return check_table_aliasing(acc, case['n'], len(case['tables']))
     if case.get('family') == 'wide-interface':
         return check_wide_interface(acc, case['n'], 'and2' if len(case['gate'][1]) == 2 else 'xor3')
     if case.get('family') == 'sym4':
